@@ -194,6 +194,8 @@ fn tests_text(cases: &[TestCase]) -> Vec<u8> {
 struct Refs {
     /// singleton report and exit class per (rules idx, data idx)
     pair: BTreeMap<(usize, usize), (Value, String)>,
+    /// rule ids with a SARIF result, per pair (from a second command of the same singleton run)
+    sarif: BTreeMap<(usize, usize), std::collections::BTreeSet<String>>,
     any_error: bool,
 }
 
@@ -357,14 +359,23 @@ impl C12 {
                     };
                     mt.insert(f.rel.clone(), t * 1_000_000_000 + if pat == 0 { r.range(0, 999_999_999) } else { 0 });
                 }
+                // plain mode reports an unreadable rules file and carries on with the others: one
+                // more rules file (invalid UTF-8, sorting first by name) must leave every other
+                // pair's report untouched; the run as a whole is not a success
+                let mut extra = vec![];
+                let mut kind = format!("dirs{}-{}", flag, if structured { "structured" } else { "plain" });
+                if !structured && r.chance(1, 5) {
+                    extra.push(FileSpec { rel: "rules/a0_unreadable.guard".into(), bytes: b"# caf\xe9 (latin-1)\nrule zz_unreadable {\n  zz_no_such_key !exists\n}\n".to_vec(), mtime_ns: 0 });
+                    kind.push_str("+unreadable");
+                }
                 out.push(Delivery {
-                    kind: format!("dirs{}-{}", flag, if structured { "structured" } else { "plain" }),
+                    kind,
                     fmt: fmt.into(),
                     argv,
                     stdin: None,
                     dir_mode: (*r.pick(&["shuffle", "shuffle", "desc", "asc"])).to_string(),
                     dir_seed: r.next(),
-                    extra: vec![],
+                    extra,
                     mtimes: mt,
                 });
             } else if choice < 9 {
@@ -427,14 +438,28 @@ impl C12 {
     /// Singleton references: every pair alone in a pristine process.
     fn references(&self, w: &mut Work, scn: &Scn12, rep: &mut Report) -> Refs {
         let mut pair = BTreeMap::new();
+        let mut sarif = BTreeMap::new();
         let mut any_error = false;
         for (ri, (rrel, _)) in scn.rules.iter().enumerate() {
             for (di, drel) in scn.data.iter().enumerate() {
                 let mut req = w.req();
                 let argv: Vec<String> = ["cfn-guard", "validate", "-r", &format!("@/{rrel}"), "-d", &format!("@/{drel}"), "--structured", "-o", "json", "-S", "none"].iter().map(|s| s.to_string()).collect();
-                req.steps = vec![Self::step(&argv, &None, &w.root)];
+                let mut argv2 = argv.clone();
+                if let Some(p) = argv2.iter().position(|a| a == "json") {
+                    argv2[p] = "sarif".into();
+                }
+                req.steps = vec![Self::step(&argv, &None, &w.root), Self::step(&argv2, &None, &w.root)];
                 let o = w.run(&req);
                 rep.absorb_exec(&o);
+                let mut ids = std::collections::BTreeSet::new();
+                if let Some(s2) = o.steps.get(1) {
+                    if let Some(results) = serde_json::from_slice::<Value>(&s2.stdout).ok().as_ref().and_then(|v| v.get("runs")).and_then(|r| r.get(0)).and_then(|r| r.get("results")).and_then(|r| r.as_array()) {
+                        for res in results {
+                            ids.insert(res.get("ruleId").and_then(|x| x.as_str()).unwrap_or("").to_uppercase());
+                        }
+                    }
+                }
+                sarif.insert((ri, di), ids);
                 let (v, class) = match o.steps.first() {
                     Some(s) => {
                         let class = if o.died_in == Some(0) { format!("died:{}", o.end) } else { Self::outcome(s) };
@@ -449,7 +474,7 @@ impl C12 {
                 pair.insert((ri, di), (v, class));
             }
         }
-        Refs { pair, any_error }
+        Refs { pair, sarif, any_error }
     }
 
     fn test_references(&self, w: &mut Work, scn: &Scn12, rep: &mut Report) -> (BTreeMap<String, Value>, bool) {
@@ -560,7 +585,14 @@ impl C12 {
             return out;
         }
         let want = if any_fail { "exit:19" } else { "exit:0" };
-        if class != want {
+        if d.kind.contains("+unreadable") {
+            // one rules file of this delivery cannot be read: 5 or 19, never 0
+            if class != "exit:5" && class != "exit:19" {
+                out.push(("exit".into(), format!("batch with an unreadable rules file returned {class}")));
+                return out;
+            }
+            rep.count("judged.with_unreadable_rules_file", 1);
+        } else if class != want {
             out.push(("exit".into(), format!("batch returned {class}, the pairs alone imply {want}")));
             return out;
         }
@@ -689,21 +721,15 @@ impl C12 {
                         }
                     }
                     let mut want: std::collections::BTreeSet<(usize, String)> = Default::default();
-                    for ri in 0..scn.rules.len() {
-                        for di in 0..scn.data.len() {
-                            if let Some(a) = refs.pair[&(ri, di)].0.get("not_compliant").and_then(|a| a.as_array()) {
-                                for e in a {
-                                    if let Some(n) = e.get("Rule").and_then(|r| r.get("name")).and_then(|n| n.as_str()) {
-                                        want.insert((di, n.to_uppercase()));
-                                    }
-                                }
-                            }
+                    for ((_, di), ids) in &refs.sarif {
+                        for id in ids {
+                            want.insert((*di, id.clone()));
                         }
                     }
                     if got != want {
                         let missing: Vec<String> = want.difference(&got).take(3).map(|(d, r)| format!("({}, {})", scn.data[*d], r)).collect();
                         let extra: Vec<String> = got.difference(&want).take(3).map(|(d, r)| format!("({}, {})", scn.data[*d], r)).collect();
-                        out.push(("sarif-results".into(), format!("SARIF results are not the union of the pairs' failing rules: missing {:?}, unexpected {:?}", missing, extra)));
+                        out.push(("sarif-results".into(), format!("SARIF results are not the union of the pairs' own SARIF results: missing {:?}, unexpected {:?}", missing, extra)));
                     }
                 }
             }
@@ -837,7 +863,7 @@ impl C12 {
         // references first (on the unperturbed file set), then the delivery
         w.materialise(&scn.files);
         let is_test = d.kind.starts_with("test-");
-        let refs = if is_test { Refs { pair: BTreeMap::new(), any_error: false } } else { self.references(w, scn, rep) };
+        let refs = if is_test { Refs { pair: BTreeMap::new(), sarif: BTreeMap::new(), any_error: false } } else { self.references(w, scn, rep) };
         let trefs = if is_test { self.test_references(w, scn, rep) } else { (BTreeMap::new(), false) };
         self.apply_delivery(w, scn, d);
         let o = self.run_delivery(w, d);
